@@ -413,6 +413,13 @@ def checkC12 (h : History) (obs : List RunObs) : Option String :=
             let lastInGroup := ((es.take i).filterMap fun e => match e with | .wait g' i' st => if g' = g && i' = id then some st else none | _ => none).getLast?
             if lastInGroup ≠ some "Pending" then some s!"Timeout reported for {id.name} which was not pending" else none
         | _ => none
+      -- Timeout is the last word of a wait phase about an object: no further wait event for it in that group
+      let afterTimeout := (List.range es.length).findSome? fun i =>
+        match (es[i]? : Option Ev) with
+        | some (Ev.wait g id "Timeout") =>
+          if (es.drop (i + 1)).any (fun e => match e with | .wait g' i' _ => g' = g && i' = id | _ => false)
+          then some s!"{id.name} is reported again by {g} after its Timeout" else none
+        | _ => none
       -- a group that finished with objects still pending (and no abort) must have reported Timeout for exactly them
       let cancelled := es.any fun e => match e with | .error "canceled" => true | .error "watcher" => true | _ => false
       -- after cancellation: no further group is started, a single error event ends the stream
@@ -435,7 +442,7 @@ def checkC12 (h : History) (obs : List RunObs) : Option String :=
         then some "the caller's context was cancelled while the run was in progress, yet the run ends without an error event" else none
       let early := if "early-timeout".isPrefixOf o.anomaly then some o.anomaly
         else if (o.anomaly.splitOn "after the context was cancelled").length > 1 then some o.anomaly else none
-      (badTimeout <|> badCancel <|> badReason <|> early).map (fun s => s!"C12 run {k}: {s}")
+      (badTimeout <|> afterTimeout <|> badCancel <|> badReason <|> early).map (fun s => s!"C12 run {k}: {s}")
     | _, _ => none
 
 /-! ### C03 — convergence -/
